@@ -69,6 +69,13 @@ def _canon_atom(e: ast.AST) -> Tuple[str, bool]:
             # identity is symmetric: a constant operand (None / True / False) goes to the right
             if isinstance(l, ast.Constant) and not isinstance(r, ast.Constant):
                 lt, rt = rt, lt
+                l, r = r, l
+            # a value that is visibly not None (a literal, an f-string, a display) compared with None
+            if isinstance(r, ast.Constant) and r.value is None:
+                if isinstance(l, ast.Constant):
+                    return "True", (l.value is None) == isinstance(op, ast.Is)
+                if isinstance(l, (ast.JoinedStr, ast.List, ast.Dict, ast.Tuple, ast.Set, ast.ListComp, ast.DictComp, ast.SetComp)):
+                    return "True", not isinstance(op, ast.Is)
             return f"{lt} is {rt}", isinstance(op, ast.Is)
         if isinstance(op, (ast.In, ast.NotIn)):
             return f"{lt} in {rt}", isinstance(op, ast.In)
@@ -423,6 +430,11 @@ def value_on_path(path: Path, cfg: CFG, expr: ast.AST, upto: Optional[int] = Non
                             for e, v in zip(t.elts, val.elts):
                                 if isinstance(e, ast.Name) and e.id == name:
                                     return i, v
+                        # a, b, c = m.group('a', 'b', 'c'): each name is the like-positioned single group
+                        if isinstance(val, ast.Call) and isinstance(val.func, ast.Attribute) and val.func.attr == "group" and len(val.args) == len(t.elts) > 1 and not val.keywords:
+                            for e, a_ in zip(t.elts, val.args):
+                                if isinstance(e, ast.Name) and e.id == name:
+                                    return i, ast.copy_location(ast.Call(func=val.func, args=[a_], keywords=[]), val)
                         return i, None
             elif isinstance(st, ast.AnnAssign) and n.kind == "annassign" and isinstance(st.target, ast.Name) and st.target.id == name:
                 return i, st.value
